@@ -24,6 +24,7 @@ import (
 	"gitlab.com/yawning/obfs4.git/internal/verifkit/refntor"
 	"gitlab.com/yawning/obfs4.git/internal/verifkit/refobfs4"
 	"gitlab.com/yawning/obfs4.git/internal/verifkit/wire"
+	"gitlab.com/yawning/obfs4.git/transports/base"
 )
 
 // vfClientMustFail lets the client run to quiescence, then ends the exchange
@@ -741,12 +742,20 @@ func TestVerifC02Concurrent(t *testing.T) {
 		reprs := map[string]int{}
 		var failures []string
 		var wg sync.WaitGroup
+		// all arguments first: parsing sets the process-wide bias flag, which the
+		// connections started below read
+		cfs := make([]base.ClientFactory, k)
+		cas := make([]interface{}, k)
 		for i := 0; i < k; i++ {
-			i := i
 			cf, cargs, err := vfClientArgs(br, i%2 == 0, 0)
 			if err != nil {
 				rt.Fatalf("VIOL[c02-parseargs]: %v", err)
 			}
+			cfs[i], cas[i] = cf, cargs
+		}
+		for i := 0; i < k; i++ {
+			i := i
+			cf, cargs := cfs[i], cas[i]
 			n := wire.NewFree(wseed + uint64(i))
 			defer n.Shutdown()
 			wg.Add(1)
